@@ -417,14 +417,16 @@ class UpdateCollection(Message):
         for nlri in v4_announces:
             packed = nlri.pack_nlri(negotiated)
             packed_size = len(packed)
+            if packed_size > msg_size:
+                # the attributes leave no room for this prefix even on its own: leave it out
+                # (an oversized UPDATE would reset the session) and carry on with the others
+                log.critical(lazymsg('update.pack.error reason=attributes_too_large'), 'parser')
+                continue
+
             if announced_size + withdraws_size + packed_size <= msg_size:
                 announced += packed
                 announced_size += packed_size
                 continue
-
-            if not withdraws and not announced:
-                log.critical(lazymsg('update.pack.error reason=attributes_too_large'), 'parser')
-                return
 
             yield self._message(UpdateCollection.prefix(withdraws) + UpdateCollection.prefix(attr) + announced)
             announced = bytes(packed)
@@ -437,14 +439,14 @@ class UpdateCollection(Message):
             for nlri in v4_withdraws:
                 packed = nlri.pack_nlri(negotiated)
                 packed_size = len(packed)
+                if packed_size > msg_size:
+                    log.critical(lazymsg('update.pack.error reason=attributes_too_large'), 'parser')
+                    continue
+
                 if announced_size + withdraws_size + packed_size <= msg_size:
                     withdraws += packed
                     withdraws_size += packed_size
                     continue
-
-                if not withdraws and not announced:
-                    log.critical(lazymsg('update.pack.error reason=attributes_too_large'), 'parser')
-                    return
 
                 if announced:
                     yield self._message(UpdateCollection.prefix(withdraws) + UpdateCollection.prefix(attr) + announced)
@@ -460,6 +462,10 @@ class UpdateCollection(Message):
                 yield self._message(UpdateCollection.prefix(withdraws) + UpdateCollection.prefix(attr) + announced)
             else:
                 yield self._message(UpdateCollection.prefix(withdraws) + UpdateCollection.prefix(b'') + announced)
+
+        # what the IPv4 part held has been sent: the MP part starts with a whole message to itself
+        withdraws = b''
+        announced = b''
 
         # Get all families that have MP announces or withdraws
         all_mp_families = set(mp_announces.keys()) | set(mp_withdraws.keys())
@@ -477,7 +483,7 @@ class UpdateCollection(Message):
             mp_announce = MPNLRICollection.from_routed(announce_routed, {}, afi, safi)
             mp_withdraw = MPNLRICollection(withdraw_nlris, {}, afi, safi)
 
-            for mprnlri in mp_announce.packed_reach_attributes(negotiated, msg_size - len(withdraws + announced)):
+            for mprnlri in mp_announce.packed_reach_attributes(negotiated, msg_size):
                 if mp_reach:
                     yield self._message(
                         UpdateCollection.prefix(withdraws) + UpdateCollection.prefix(attr + mp_reach) + announced
@@ -487,11 +493,9 @@ class UpdateCollection(Message):
                 mp_reach = mprnlri
 
             if include_withdraw:
-                for mpurnlri in mp_withdraw.packed_unreach_attributes(
-                    negotiated,
-                    msg_size - len(withdraws + announced + mp_reach),
-                ):
-                    if mp_unreach:
+                for mpurnlri in mp_withdraw.packed_unreach_attributes(negotiated, msg_size):
+                    # the first MP_UNREACH shares the message of the pending MP_REACH only if both fit
+                    if mp_unreach or len(mp_reach) + len(mpurnlri) > msg_size:
                         yield self._message(
                             UpdateCollection.prefix(withdraws)
                             + UpdateCollection.prefix(mp_unreach + attr + mp_reach)
